@@ -14,6 +14,29 @@ from ..core import Engine, stream, BuildError, digest
 from unified_planning.model.delta_stn import DeltaSimpleTemporalNetwork
 
 
+def event_objects(names, how):
+    """The hashable objects standing for the events.  `plan_node`: the library's own event type (STNPlanNode, what
+    STNPlan feeds to the network), with TWINS: distinct ActionInstances of one ground action are distinct events."""
+    if how == "int":
+        return {n: i for i, n in enumerate(names)}
+    if how == "tuple":
+        return {n: (n, i % 2) for i, n in enumerate(names)}
+    if how == "plan_node":
+        from unified_planning.environment import Environment
+        from unified_planning.model import InstantaneousAction
+        from unified_planning.model.timing import TimepointKind
+        from unified_planning.plans import ActionInstance
+        from unified_planning.plans.stn_plan import STNPlanNode
+        env = Environment()
+        acts = [InstantaneousAction("a", _env=env), InstantaneousAction("b", _env=env)]
+        out = {}
+        for i, n in enumerate(names):
+            kind = TimepointKind.START if i % 2 == 0 else TimepointKind.END
+            out[n] = STNPlanNode(kind, ActionInstance(acts[(i // 2) % 2 if i >= 4 else 0]))
+        return out
+    return {n: n for n in names}
+
+
 def num(x):
     return x if isinstance(x, int) else Fraction(x)
 
@@ -98,7 +121,7 @@ class StnHist(Engine):
             i, j = sorted(r.sample(range(nev), 2))
             ops.append({"op": "add", "n": r.choice(nets), "x": events[j], "y": events[i],
                         "b": r.randint(5, 30 * (j - i))})
-        return {"engine": self.name, "events": events, "ops": ops}
+        return {"engine": self.name, "events": events, "events_as": r.choice(["str", "str", "int", "plan_node"]), "ops": ops}
 
     def generate(self, seed, profile, tier):
         if profile == "cascade":
@@ -163,10 +186,17 @@ class StnHist(Engine):
                 bb = bound()
                 ops.append({"op": "add", "n": n, "x": a, "y": b_, "b": bb})
                 e[(a, b_)] = bb
-        return {"engine": self.name, "events": events, "ops": ops}
+        return {"engine": self.name, "events": events, "events_as": r.choice(["str", "int", "tuple", "plan_node", "plan_node"]),
+                "ops": ops}
 
     def execute(self, script, ctx):
         real = {"N0": DeltaSimpleTemporalNetwork()}
+        E = event_objects(script["events"], script.get("events_as", "str"))
+        for op in script["ops"]:
+            # dangling event names (a minimised script): the event simply is its name
+            for key in ("x", "y", "l", "r"):
+                if key in op and op[key] not in E:
+                    E[op[key]] = op[key]
         cons = {"N0": []}        # net -> list of (x, y, b)
         seen = {"N0": set()}     # events known to the net
         dead = {"N0": False}     # has been inconsistent
@@ -209,7 +239,7 @@ class StnHist(Engine):
                     cons[n].append((op["x"], op["y"], b))
                     seen[n].update((op["x"], op["y"]))
                 before = dict(real[n].distances)
-                call(f"op {i}: add({op['x']}, {op['y']}, {b}) on {n}", real[n].add, op["x"], op["y"], b)
+                call(f"op {i}: add({op['x']}, {op['y']}, {b}) on {n}", real[n].add, E[op["x"]], E[op["y"]], b)
                 moved = sum(1 for e_, v_ in real[n].distances.items() if before.get(e_, 0) != v_)
                 if moved >= 5:
                     cascade = True
@@ -227,7 +257,7 @@ class StnHist(Engine):
                 st = real[n]
                 pre = st.check_stn()
                 call(f"op {i}: insert_interval({op['l']}, {op['r']}, {lb}, {ub}) on {n}", st.insert_interval,
-                     op["l"], op["r"], left_bound=lb, right_bound=ub)
+                     E[op["l"]], E[op["r"]], left_bound=lb, right_bound=ub)
                 if pre:
                     if lb is not None:
                         cons[n].append((op["l"], op["r"], -lb))
@@ -262,15 +292,15 @@ class StnHist(Engine):
                     continue
                 for e in sorted(seen[n]):
                     try:
-                        t = real[n].get_stn_model(e)
+                        t = real[n].get_stn_model(E[e])
                     except KeyError:
                         ctx.fail("C25.model", f"after op {i}: network {n} has no model value for event {e}", cls="missing-event")
                     ctx.check("C25.model", Fraction(t) == ref[e],
                               f"after op {i}: network {n} reports {e} at {t}, the least non-negative solution of {cons[n]} "
                               f"puts it at {ref[e]}", cls="wrong-time")
                 for x, y, b in cons[n]:
-                    tx = Fraction(call(f"after op {i}: get_stn_model({x}) on {n}", real[n].get_stn_model, x))
-                    ty = Fraction(call(f"after op {i}: get_stn_model({y}) on {n}", real[n].get_stn_model, y))
+                    tx = Fraction(call(f"after op {i}: get_stn_model({x}) on {n}", real[n].get_stn_model, E[x]))
+                    ty = Fraction(call(f"after op {i}: get_stn_model({y}) on {n}", real[n].get_stn_model, E[y]))
                     ctx.check("C25.model-satisfies", tx - ty <= b,
                               f"after op {i}: network {n}: reported model violates {x} - {y} <= {b} ({tx} - {ty})",
                               cls="violated-constraint")
